@@ -507,14 +507,15 @@ pub fn integrity<G: AffineRepr>(curve: &str, ci: u64, seed: u64, tier: &str, out
         // (a) all single-bit flips
         let mut cnt = [0usize; 10];
         let mut first = String::from("-");
-        for i in 0..bytes.len() * 8 {
+        let stride = if std::env::var("VERIF_INTEGRITY_LIGHT").is_ok() { 61 } else { 1 };
+        for i in (0..bytes.len() * 8).step_by(stride) {
             let mut b = bytes.clone();
             b[i / 8] ^= 1 << (i % 8);
             let c = classify(&b, "flip");
             cnt[c as usize] += 1;
             if (c == 3 || c == 9) && first == "-" { first = format!("bit{}:{}", i, hex(&b)); }
         }
-        let _ = writeln!(out, "FLIP {} {} total={} decode_rejected={} identical={} verify_rejected={} accepted={} panicked={} first={}", curve, pi, bytes.len() * 8, cnt[0], cnt[1], cnt[2], cnt[3], cnt[9], first);
+        let _ = writeln!(out, "FLIP {} {} total={} decode_rejected={} identical={} verify_rejected={} accepted={} panicked={} first={}", curve, pi, (bytes.len() * 8 + stride - 1) / stride, cnt[0], cnt[1], cnt[2], cnt[3], cnt[9], first);
         // (b) single-field perturbations
         let parts = proof_parts(&proof);
         let k = parts.l.len();
